@@ -1042,7 +1042,10 @@ class VM:
         """JavaScript === operator."""
         # Different types are never equal
         if type(a) != type(b):
-            # Special case: int and float
+            # Special case: int and float (a boolean is neither; bool is a
+            # subclass of int only for the host)
+            if isinstance(a, bool) or isinstance(b, bool):
+                return False
             if isinstance(a, (int, float)) and isinstance(b, (int, float)):
                 return a == b
             return False
